@@ -12,7 +12,7 @@ from vf.props.c04 import class_b_quaternion
 
 PROPERTY = 'C07'
 LEVEL = 'exploration'
-RULE = ('Three generated families, N in 1..8 rows, row index drawn. quat: rows from the shared unit-quaternion mixture (half-turns, '
+RULE = ('Three generated families, N in 1..8 rows (one case in five: 9..40), row index drawn. quat: rows from the shared unit-quaternion mixture (half-turns, '
         'near-identity, denormal components) and rpy triples: QuaternionArray vs Quaternion for w/x/y/z/v, conjugate, to_DCM, '
         'to_angles, from_rpy / rpy=, and DCM= with all seven method/version choices on rotation matrices of every angle class; '
         'chiaverini / hughes Nx3x3 vs 3x3; q2R (v1, v2) and DCM.from_quaternion Nx4 vs 4. metrics: qdist/qeip/qcip/qad and chordal on '
@@ -24,7 +24,7 @@ RULE = ('Three generated families, N in 1..8 rows, row index drawn. quat: rows f
         'the selected row is not the first; distinct = case hash.')
 ASSUMPTIONS = ['is_pure/is_real/... predicates are not twins (exact vs isclose tests, documented difference)',
                'OLEQ: the single call is aligned with the batch by seeding numpy and discarding the draws of the earlier rows']
-REQUIRED_LABELS = ['quat:N>=2', 'metrics:N>=2', 'estimators:N>=2', 'estimators:data=random', 'estimators:data=consistent']
+REQUIRED_LABELS = ['quat:N>=2', 'metrics:N>=2', 'estimators:N>=2', 'quat:N>=9', 'metrics:N>=9', 'estimators:N>=9', 'estimators:data=random', 'estimators:data=consistent']
 TOL = 1e-12
 
 
@@ -70,12 +70,15 @@ def _twin(ctx, name, f_batch, f_single, tol=TOL):
         ctx.fail(f'{name}|batch_differs_from_single', why[:300])
 
 
+# mostly small batches (cheap, shrink well); one case in five is longer so that size-dependent paths are reached
+BATCH_SIZES = st.one_of(st.integers(1, 8), st.integers(1, 8), st.integers(1, 8), st.integers(1, 8), st.integers(9, 40))
+
 # ------------------------------------------------------------------ quaternion / matrix twins
 
 def _quat_case():
     @st.composite
     def build(draw):
-        n = draw(st.integers(1, 8))
+        n = draw(BATCH_SIZES)
         rows = [draw(gen.unit_quaternions()) for _ in range(n)]
         ang = [[draw(gen.angles_any()), draw(gen.fl(-1.5, 1.5)), draw(gen.angles_any())] for _ in range(n)]
         rots = [list(draw(gen.axis_angle_rotation())) for _ in range(n)]
@@ -89,7 +92,7 @@ def eval_quat(case, ctx):
     from ahrs.common import orientation as ori
     Qr = np.array(case['rows'], dtype=float)
     n, i = len(Qr), int(case['idx'])
-    ctx.label('N>=2' if n >= 2 else 'N=1')
+    ctx.label('N>=9' if n >= 9 else 'N>=2' if n >= 2 else 'N=1')
     ctx.nt(n >= 2 and i > 0)
     QA = QuaternionArray(np.array(Qr))
     q1 = Quaternion(np.array(Qr[i]))
@@ -132,7 +135,7 @@ def _metric_case():
 
     @st.composite
     def build(draw):
-        n = draw(st.integers(1, 8))
+        n = draw(BATCH_SIZES)
         rows = [{'a': draw(gen.unit_quaternions(allow_denormal=False)), 'axis': draw(gen.axes()), 't': draw(t),
                  'flip': draw(st.booleans()), 's1': draw(gen.log_uniform(-1, 1)), 's2': draw(gen.log_uniform(-1, 1))} for _ in range(n)]
         return {'rows': rows, 'idx': draw(st.integers(0, n-1))}
@@ -143,7 +146,7 @@ def eval_metrics(case, ctx):
     from ahrs.utils import metrics as M
     rows = case['rows']
     n, i = len(rows), int(case['idx'])
-    ctx.label('N>=2' if n >= 2 else 'N=1')
+    ctx.label('N>=9' if n >= 9 else 'N>=2' if n >= 2 else 'N=1')
     ctx.nt(n >= 2 and i > 0)
     A, B = [], []
     for r in rows:
@@ -186,7 +189,7 @@ def _rows():
 def _est_case():
     @st.composite
     def build(draw):
-        n = draw(st.integers(1, 8))
+        n = draw(BATCH_SIZES)
         data = draw(st.sampled_from(['random', 'consistent']))
         samples = []
         for _ in range(n):
@@ -205,7 +208,7 @@ def eval_estimators(case, ctx):
     rows = _rows()
     n, i = len(case['samples']), int(case['idx'])
     dip = float(case['dip'])
-    ctx.label('N>=2' if n >= 2 else 'N=1', f'data={case["data"]}')
+    ctx.label('N>=9' if n >= 9 else 'N>=2' if n >= 2 else 'N=1', f'data={case["data"]}')
     ctx.nt(n >= 2 and i > 0)
     # three estimator rows per case, chosen by the case (keeps cases cheap while every row is hit uniformly)
     pick = [rows[(int(case['row']) + k*7) % len(rows)] for k in range(3)]
